@@ -180,7 +180,10 @@ func (s *c11Sig) clone(how string) *c11Sig {
 type c11World struct {
 	t     *testing.T
 	name  string
+	tag   string        // "" = replicas 1..4; "big" = replica ids that agree in their low bits
 	n     int
+	ids   []hotstuff.ID // the replicas; ids[0] is the replica under test
+	idx   map[hotstuff.ID]int
 	keys  []hotstuff.PrivateKey
 	bases []crypto.Base
 	infos []*hotstuff.ReplicaInfo
@@ -214,12 +217,14 @@ func c11Key(t *testing.T, name string) hotstuff.PrivateKey {
 	}
 }
 
-func c11NewWorld(t *testing.T, name string, n int) *c11World {
-	w := &c11World{t: t, name: name, n: n, atoms: map[string]*c11Sig{}}
+func c11NewWorld(t *testing.T, name, tag string, ids []hotstuff.ID) *c11World {
+	n := len(ids)
+	w := &c11World{t: t, name: name, tag: tag, n: n, ids: ids, idx: map[hotstuff.ID]int{}, atoms: map[string]*c11Sig{}}
 	cfgs := make([]*core.RuntimeConfig, n)
 	for i := 0; i < n; i++ {
+		w.idx[ids[i]] = i
 		w.keys = append(w.keys, c11Key(t, name))
-		cfgs[i] = core.NewRuntimeConfig(hotstuff.ID(i+1), w.keys[i])
+		cfgs[i] = core.NewRuntimeConfig(ids[i], w.keys[i])
 		b, err := crypto.New(cfgs[i], name)
 		if err != nil {
 			t.Fatal(err)
@@ -227,7 +232,7 @@ func c11NewWorld(t *testing.T, name string, n int) *c11World {
 		w.bases = append(w.bases, b)
 	}
 	for i := 0; i < n; i++ {
-		w.infos = append(w.infos, &hotstuff.ReplicaInfo{ID: hotstuff.ID(i + 1), PubKey: w.keys[i].Public(), Metadata: cfgs[i].ConnectionMetadata()})
+		w.infos = append(w.infos, &hotstuff.ReplicaInfo{ID: ids[i], PubKey: w.keys[i].Public(), Metadata: cfgs[i].ConnectionMetadata()})
 	}
 	for _, c := range cfgs {
 		w.addReplicas(c)
@@ -239,7 +244,7 @@ func c11NewWorld(t *testing.T, name string, n int) *c11World {
 	if _, isCache := w.plain.Base.(*Cache); isCache {
 		t.Fatal("c11: authority without WithCache is wrapped in a cache")
 	}
-	ccfg := core.NewRuntimeConfig(1, w.keys[0])
+	ccfg := core.NewRuntimeConfig(ids[0], w.keys[0])
 	cb, err := crypto.New(ccfg, name)
 	if err != nil {
 		t.Fatal(err)
@@ -258,7 +263,7 @@ func (w *c11World) addReplicas(c *core.RuntimeConfig) {
 // newCached returns a fresh authority for replica 1 with the cache switched on as the
 // applications do it (core.WithCache → NewAuthority wraps the scheme in a Cache).
 func (w *c11World) newCached(capacity int) (*Authority, *Cache) {
-	cfg := core.NewRuntimeConfig(1, w.keys[0], core.WithCache(uint(capacity)))
+	cfg := core.NewRuntimeConfig(w.ids[0], w.keys[0], core.WithCache(uint(capacity)))
 	w.addReplicas(cfg)
 	a := NewAuthority(cfg, w.chain, w.cbase)
 	c, ok := a.Base.(*Cache)
@@ -273,7 +278,11 @@ func (w *c11World) atom(id hotstuff.ID, m []byte) *c11Sig {
 	if s, ok := w.atoms[k]; ok {
 		return s
 	}
-	sig, err := w.bases[id-1].Sign(m)
+	i, ok := w.idx[id]
+	if !ok {
+		w.t.Fatalf("c11: %d is not a replica", id)
+	}
+	sig, err := w.bases[i].Sign(m)
 	if err != nil {
 		w.t.Fatal(err)
 	}
@@ -823,7 +832,7 @@ func (q *c11Seq) finish() {
 	if q.stream == "rnd" {
 		perFile = 150 // longer sequences with larger signature tables
 	}
-	s := q.v.Stream(q.stream+"_"+q.w.name, checker, perFile)
+	s := q.v.Stream(q.stream+q.w.tag+"_"+q.w.name, checker, perFile)
 	term := fmt.Sprintf("(%d%%nat, [%s], [%s])", q.cap, strings.Join(q.tbl, ";"), strings.Join(q.items, ";\n "))
 	meta := map[string]any{"scheme": q.w.name, "capacity": q.cap, "operations": q.descs}
 	q.v.Case(s, term, meta)
@@ -917,9 +926,9 @@ func (w *c11World) exhaustive(v *verifOut, length int, caps []int) {
 func (w *c11World) randSubset(v *verifOut, min int) []hotstuff.ID {
 	for {
 		var ids []hotstuff.ID
-		for i := 1; i <= w.n; i++ {
+		for _, id := range w.ids {
 			if v.rng.Intn(2) == 0 {
-				ids = append(ids, hotstuff.ID(i))
+				ids = append(ids, id)
 			}
 		}
 		if len(ids) >= min {
@@ -973,25 +982,55 @@ func (w *c11World) freshOp(v *verifOut) *c11Op {
 			if v.rng.Intn(3) == 0 {
 				sigs = append(sigs, w.multi(m, w.randSubset(v, 1)...))
 			} else {
-				sigs = append(sigs, w.atom(hotstuff.ID(1+v.rng.Intn(w.n)), m))
+				sigs = append(sigs, w.atom(w.ids[v.rng.Intn(w.n)], m))
 			}
 		}
 		return &c11Op{op: "combine", sigs: sigs}
 	}
 }
 
-func c11OtherIDs(v *verifOut, ids []hotstuff.ID, n int, keepSet bool) []hotstuff.ID {
-	r := append([]hotstuff.ID(nil), ids...)
-	if keepSet {
-		if len(r) >= 2 {
-			i := v.rng.Intn(len(r) - 1)
-			r[i], r[i+1] = r[i+1], r[i]
+// c11Twin returns an id that differs from id only in bits >= 8: id + m*2^k (k in 8..maxBit, m odd),
+// i.e. an id that agrees with id in its low 8 / 15 / 16 / 24 ... bits.
+func c11Twin(v *verifOut, id hotstuff.ID, maxBit int) hotstuff.ID {
+	for {
+		k := 8 + v.rng.Intn(maxBit-7)
+		m := uint32(1 + 2*v.rng.Intn(2)) // 1 or 3
+		t := hotstuff.ID(uint32(id) + m<<k)
+		if v.rng.Intn(4) == 0 {
+			t ^= hotstuff.ID(uint32(1) << (8 + v.rng.Intn(maxBit-7)))
 		}
-		return r
+		if t != 0 && t != id && uint32(t)&0xff == uint32(id)&0xff {
+			return t
+		}
 	}
+}
+
+// maxBit is the highest id bit the scheme's signatures can carry at reasonable cost
+// (a BLS participant bitfield has one bit per id below the largest participant).
+func (w *c11World) maxBit() int {
+	if w.name == crypto.NameBLS12 {
+		return 20
+	}
+	return 31
+}
+
+// someID picks a replica, a small id that is no replica, or a high-bit twin of [near].
+func (w *c11World) someID(v *verifOut, near hotstuff.ID) hotstuff.ID {
+	switch v.rng.Intn(6) {
+	case 0:
+		return hotstuff.ID(5 + v.rng.Intn(3))
+	case 1, 2:
+		return c11Twin(v, near, w.maxBit())
+	}
+	return w.ids[v.rng.Intn(w.n)]
+}
+
+// otherIDs changes one label of the list (no duplicates).
+func (w *c11World) otherIDs(v *verifOut, ids []hotstuff.ID) []hotstuff.ID {
+	r := append([]hotstuff.ID(nil), ids...)
 	for try := 0; try < 20; try++ {
 		i := v.rng.Intn(len(r))
-		nid := hotstuff.ID(1 + v.rng.Intn(n+1)) // n+1: an id outside the configuration
+		nid := w.someID(v, r[i])
 		dup := false
 		for _, x := range r {
 			if x == nid {
@@ -1067,7 +1106,7 @@ func (w *c11World) alterOp(v *verifOut, o *c11Op) *c11Op {
 			if o.sig.kind == c11Nil || len(o.sig.ids) == 0 {
 				continue
 			}
-			ids := c11OtherIDs(v, o.sig.ids, w.n, false)
+			ids := w.otherIDs(v, o.sig.ids)
 			if ids == nil {
 				continue
 			}
@@ -1127,7 +1166,7 @@ func (w *c11World) alterOp(v *verifOut, o *c11Op) *c11Op {
 			if o.op == "batch" && len(o.batch) > 0 {
 				ids := c11SortedIDs(o.batch)
 				from := ids[v.rng.Intn(len(ids))]
-				to := hotstuff.ID(1 + v.rng.Intn(w.n+1))
+				to := w.someID(v, from)
 				if _, taken := o.batch[to]; !taken {
 					n.batch[to] = o.batch[from]
 					delete(n.batch, from)
@@ -1137,7 +1176,7 @@ func (w *c11World) alterOp(v *verifOut, o *c11Op) *c11Op {
 			}
 		case 13, 14: // same signature, the batch (or the aggregate QC's map) gains an entry for a non-signer
 			if isBatch && o.sig.kind != c11Nil {
-				to := hotstuff.ID(1 + v.rng.Intn(w.n+2)) // up to two ids that are not replicas
+				to := w.someID(v, w.ids[v.rng.Intn(w.n)]) // a replica, an id that is none, or a high-bit twin of one
 				if _, taken := o.batch[to]; !taken {
 					if o.op == "batch" {
 						n.batch[to] = append([]byte("x"), c11Msgs[v.rng.Intn(len(c11Msgs))]...) // distinct from the pool
@@ -1413,13 +1452,97 @@ func (w *c11World) boundary(v *verifOut) {
 	}
 }
 
+// hibits: a verification with the genuine labels (remembered), then the same signature with one
+// or all signer labels replaced by ids that differ only in high bits (id + m*2^k for every k in
+// 8..31, resp. 8..20 for BLS bitfields), then the genuine one again.  Single signatures,
+// multi-signatures, batch signatures, and certificates (TC / aggregate QC).
+func (w *c11World) hibits(v *verifOut) {
+	maxBit := w.maxBit()
+	var deltas []uint32
+	for k := 8; k <= maxBit; k++ {
+		deltas = append(deltas, uint32(1)<<k)
+		if k <= 29 {
+			deltas = append(deltas, uint32(3)<<k)
+		}
+	}
+	deltas = append(deltas, 1<<15|1<<16, 1<<8|1<<15, 1<<15|1<<20)
+	if maxBit == 31 {
+		deltas = append(deltas, 1<<16|1<<24, 1<<24|1<<31, 0xffffff00)
+	}
+	m0 := []byte("ab")
+	a, b, c := w.ids[0], w.ids[1], w.ids[2]
+	view := hotstuff.View(5)
+	b3 := map[hotstuff.ID][]byte{a: []byte("ab"), b: []byte("c"), c: []byte("a")}
+	tb := map[hotstuff.ID][]byte{}
+	tids := map[hotstuff.ID][]byte{}
+	for _, id := range []hotstuff.ID{a, b, c} {
+		tb[id] = c11TimeoutBytes(id, view)
+		tids[id] = nil
+	}
+	bases := []*c11Op{
+		{op: "verify", sig: w.atom(b, m0), msg: m0},
+		{op: "verify", sig: w.multi(m0, a, b, c), msg: m0},
+		{op: "tc", sig: w.multi(view.ToBytes(), a, b, c), view: view},
+		{op: "batch", sig: w.batchSig(b3), batch: b3},
+		{op: "aggqc", sig: w.batchSig(tb), batch: tids, view: view},
+	}
+	twin := func(o *c11Op, d uint32, all bool) *c11Op {
+		n := *o
+		ids := append([]hotstuff.ID(nil), o.sig.ids...)
+		old := append([]hotstuff.ID(nil), o.sig.ids...)
+		for i := range ids {
+			if all || i == len(ids)-1 {
+				ids[i] = hotstuff.ID(uint32(ids[i]) + d)
+				if ids[i] == 0 {
+					return nil
+				}
+			}
+		}
+		n.sig = c11Relabel(o.sig, ids)
+		if n.sig == nil {
+			return nil
+		}
+		if o.batch != nil { // the batch follows the labels
+			n.batch = map[hotstuff.ID][]byte{}
+			for i, id := range old {
+				n.batch[ids[i]] = o.batch[id]
+			}
+		}
+		n.alter = "signer-labels-high-bits"
+		return &n
+	}
+	for _, base := range bases {
+		for _, all := range []bool{false, true} {
+			if all && len(base.sig.ids) == 1 {
+				continue
+			}
+			for _, capacity := range []int{1, 8} {
+				q := c11NewSeq(w, v, "hib", capacity)
+				q.do(base)
+				for _, d := range deltas {
+					if o := twin(base, d, all); o != nil {
+						if _, ok := o.sig.obj(); ok {
+							q.do(o)
+						}
+					}
+				}
+				again := *base
+				again.alter = "same"
+				q.do(&again)
+				q.finish()
+			}
+		}
+	}
+}
+
 func TestVerifC11(t *testing.T) {
 	v := verifNew("C11")
 	search := os.Getenv("VERIF_SEARCH") != ""
 	for _, name := range []string{crypto.NameEDDSA, crypto.NameECDSA, crypto.NameBLS12} {
-		w := c11NewWorld(t, name, 4)
+		w := c11NewWorld(t, name, "", []hotstuff.ID{1, 2, 3, 4})
 		c11Block = w.block
 		w.boundary(v)
+		w.hibits(v)
 		switch name {
 		case crypto.NameBLS12:
 			if !search {
@@ -1445,6 +1568,17 @@ func TestVerifC11(t *testing.T) {
 			}
 			w.random(v, v.Pick(400, 5000))
 		}
+	}
+	// a configuration whose replica ids agree in their low 8 / 15 / 16 bits (ids are uint32)
+	for _, name := range []string{crypto.NameEDDSA, crypto.NameECDSA, crypto.NameBLS12} {
+		big := []hotstuff.ID{1, 2, 1 + 1<<15, 2 + 1<<16}
+		if name != crypto.NameBLS12 {
+			big = []hotstuff.ID{1, 1 + 1<<31, 1 + 1<<15, 1 + 1<<16 + 1<<24}
+		}
+		w := c11NewWorld(t, name, "big", big)
+		c11Block = w.block
+		w.hibits(v)
+		w.random(v, v.Pick(map[string]int{crypto.NameBLS12: 15}[name]+25, 600))
 	}
 	v.Close("operation sequences (sign/verify/batch-verify/combine/VerifyTimeoutCert/VerifyAggregateQC) on a cached and an uncached cert.Authority of replica 1 over 4 replicas, three schemes, capacities 1..8; exhaustive over an alphabet of a base verification and every single alteration, random replays, boundary sequences; non-trivial = the sequence contains a cache hit or an altered replay")
 }
